@@ -235,13 +235,23 @@ func boundedChild(args []string) int {
 	t, _ := strconv.Atoi(args[3])
 	log.SetLogLevelQuiet(log.Critical)
 	_ = extensions.Init(nil)
-	prog := boundedProgram(args[0], n)
+	// ctx-<family>: the deadline comes with the CALLER's context (a bot's per-request deadline, ^C in the REPL) and no
+	// MaxDuration is configured; the evaluation has to honour that context just the same
+	fam, viaCtx := strings.CutPrefix(args[0], "ctx-")
+	prog := boundedProgram(fam, n)
 	opts := repl.EvalStringOptions()
 	opts.MaxDepth = d
 	opts.MaxDuration = time.Duration(t) * time.Millisecond
+	ctx := context.Background()
+	if viaCtx && t > 0 {
+		opts.MaxDuration = 0
+		var cancel context.CancelFunc
+		ctx, cancel = context.WithTimeout(ctx, time.Duration(t)*time.Millisecond)
+		defer cancel()
+	}
 	cpu0 := processCPU()
 	start := time.Now()
-	_, errs, formatted := repl.EvalStringWithOption(context.Background(), opts, prog)
+	_, errs, formatted := repl.EvalStringWithOption(ctx, opts, prog)
 	wall := time.Since(start)
 	cpu := processCPU() - cpu0
 	res := classifyErrs(errs)
@@ -255,6 +265,7 @@ func boundedChild(args []string) int {
 // families that finish in milliseconds when the code is right: a run that has to be killed there is a hang, and
 // waiting longer (or repeating many of them) only delays the report
 func boundedQuickFamily(fam string) bool {
+	fam = strings.TrimPrefix(fam, "ctx-")
 	return strings.HasPrefix(fam, "degen-") || strings.HasPrefix(fam, "wrap-") || strings.HasPrefix(fam, "huge-") ||
 		strings.HasPrefix(fam, "loop-") || fam == "sleep"
 }
@@ -311,7 +322,7 @@ func runBoundedChild(fam string, n int64, d, t int) (string, bool) {
 				c, _ = strconv.Atoi(f[4:])
 			}
 		}
-		if c >= 0 && c < w && fam != "sleep" {
+		if c >= 0 && c < w && strings.TrimPrefix(fam, "ctx-") != "sleep" {
 			w = c
 		}
 		retry = w-t > boundedRetryOverMs
@@ -491,6 +502,10 @@ func boundedGen(tier string, r *rng, emit func(string)) {
 		// waiting
 		add("sleep", 10, pickD(), 100)
 		add("sleep", 10, 0, deadlines[i%len(deadlines)])
+		// the same with the deadline carried by the caller's context and no MaxDuration
+		add("ctx-sleep", 10, 0, deadlines[i%len(deadlines)])
+		add("ctx-loop-empty", 0, pickD(), deadlines[(i+1)%len(deadlines)])
+		add("ctx-loop-incr", 0, 0, deadlines[(i+2)%len(deadlines)])
 	}
 	// run: up to boundedWorkers children at a time
 	type job struct {
